@@ -46,6 +46,28 @@ def collect(h):
     rel = "pkg/parser/impl_build.go"
     body = h.func_body(rel, r"^func \(c \*buildContext\) grantsAndRevokes\(", "grantsAndRevokes")
     items.append(("parser_checks_grant_matches", "bool", "true" if re.search(r"FirstFilterMatch\(", body) else "false", rel + " grantsAndRevokes"))
+    # source anchors of four repairs outside the C17 fragment (the claims about them are observed only;
+    # the flags make the check fail loudly - broken side condition - when a repair is reverted)
+    rel = "pkg/parser/impl_analyse.go"
+    body = h.func_body(rel, r"^func analyzeRole\(", "analyzeRole")
+    guarded = re.search(r"stmtErr\([^\n]*\n\s*return\s*\n\s*\}\s*\n\s*r\.workspace\s*=\s*c\.mustCurrentWorkspace\(\)", body)
+    items.append(("parser_role_outside_workspace_is_error", "bool", "true" if guarded else "false", rel + " analyzeRole (C16-F3)"))
+    body = h.func_body(rel, r"^func analyzeView\(", "analyzeView")
+    m = re.search(r"if\s+intentForView\s*==\s*nil\s*\{(.*?)\n\t\}", body, re.S)
+    if not m:
+        raise h.Missing(f"{rel}: analyzeView: cannot locate the `intentForView == nil` branch")
+    items.append(("parser_view_intent_error_without_projector", "bool", "false" if re.search(r"projector\.", m.group(1)) else "true", rel + " analyzeView (C16-F4)"))
+    rel = "pkg/parser/impl_build.go"
+    body = h.func_body(rel, r"^func \(c \*buildContext\) addTableItems\(", "addTableItems")
+    h.find(rel, r"c\.addTableItems\(schema,\s*item\.FieldSet\.typ\.Items\)", "addTableItems: field set recursion")
+    items.append(("parser_field_set_cycles_checked", "bool",
+                  "true" if re.search(r"if\s+slices\.Contains\(c\.fieldSets,\s*item\.FieldSet\.typ\)\s*\{[^}]*stmtErr", body) else "false", rel + " addTableItems (C16-F5)"))
+    body = h.func_body(rel, r"^func \(c \*buildContext\) grantsAndRevokes\(", "grantsAndRevokes")
+    by_map = bool(re.search(r"for\s+_\s*,\s*\w+\s*:=\s*range\s+c\.app\.Packages\s*\{", body))
+    by_path = bool(re.search(r"slices\.Sort\(paths\)", body)) and len(re.findall(r"for\s+_\s*,\s*path\s*:=\s*range\s+paths\s*\{", body)) == 2
+    if by_map == by_path:
+        raise h.Missing(f"{rel}: cannot decide the package order in grantsAndRevokes")
+    items.append(("parser_grants_in_package_path_order", "bool", "true" if by_path else "false", rel + " grantsAndRevokes (C16-F8)"))
     # the parser's identifier rule: a letter followed by at most 254 word characters
     rel = "pkg/parser/const.go"
     h.find(rel, r'identifierRegexp\s*=\s*`\(\[a-zA-Z\]\\w\{0,254\}\)\|\("\[a-zA-Z\]\\w\{0,254\}"\)`', "identifierRegexp")
